@@ -137,6 +137,20 @@ def reference_checks(ctx, R, rng, sc):
         ex = {"formulation": fname, "state": "reference " + label, "Qnorm": R.spec.get("Qnorm"), "ref": R.ref_info}
         q = R.qsys(q_rod)
         u0 = np.zeros(sysm.nu)
+        if rng.random() < 0.5:
+            # post-processing queries at this state first (strains / stresses at the quadrature points and at other cross-
+            # sections, as a plotting script does): they must not change what the rod answers afterwards
+            la_c_ = np.zeros(getattr(rod, "nla_c", 0)); la_g_ = np.zeros(getattr(rod, "nla_g", 0))
+            try:
+                for el in range(rod.nelement):
+                    for i_ in range(rod.nquadrature):
+                        xi_ = float(rod.qp[el, i_])
+                        rod.eval_strains(t, q_rod, la_c_, la_g_, xi_, el)
+                        rod.eval_stresses(t, q_rod, la_c_, la_g_, xi_, el if rng.random() < 0.5 else None)
+                rod.eval_strains(t, q_rod, la_c_, la_g_, float(rng.uniform(0, 1)))
+                ctx.cls("reference:after_post_processing_queries")
+            except Exception as e_:
+                ctx.count(f"post_processing_query_raised:{type(e_).__name__}")
         _report(ctx, "ref.E_pot", "System.E_pot", "strain energy of the reference configuration is not zero",
                 sysm.E_pot(t, q), 0.0, 1e-18 * sc.E, ex)
         h = sysm.h(t, q, u0)[rod.uDOF]
